@@ -361,7 +361,11 @@ func ruleEFF(w *World, r *Report, o effOpts) {
 		case isDefaultFileIOWrite(m.Fn):
 			nPrim++
 			if o.e1 {
-				r.ok("EFF", k, w.ipos(m.Call), "mutating primitive inside the fileIO implementation's WriteFile")
+				if why := writeImplProblem(m); why != "" {
+					r.bad("EFF", k, w.ipos(m.Call), why)
+				} else {
+					r.ok("EFF", k, w.ipos(m.Call), "mutating primitive inside the fileIO implementation's WriteFile; replaces the whole file with the data parameter")
+				}
 			}
 		case pkg == "cmd/par" && name == "cmd/par.main" && m.Callee == "os.Create" && argFromField(m.Call, 0, "cpuProfile"):
 			if o.e1 {
@@ -484,4 +488,40 @@ func argFromField(c ssa.CallInstruction, i int, field string) bool {
 	}
 	p := valuePath(args[i])
 	return strings.HasSuffix(p.Path, "."+field)
+}
+
+// writeImplProblem checks the whole-file-replacement shape of a mutating call
+// inside a defaultFileIO.WriteFile(path, data) implementation: WriteFile-style
+// primitives must receive the method's own path and data parameters, and
+// os.OpenFile must truncate (a file opened without O_TRUNC keeps the tail of a
+// longer damaged copy, so the result is not the original).
+func writeImplProblem(m mutSite) string {
+	args := m.Call.Common().Args
+	params := m.Fn.Params // recv, path, data
+	switch m.Callee {
+	case "io/ioutil.WriteFile", "os.WriteFile":
+		if len(args) >= 2 && len(params) >= 3 {
+			if stripConv(args[0]) != params[1] {
+				return "the path given to " + m.Callee + " is not the method's path parameter"
+			}
+			if stripConv(args[1]) != params[2] {
+				return "the data given to " + m.Callee + " is not the method's data parameter"
+			}
+		}
+	case "os.OpenFile":
+		if len(args) >= 2 {
+			fl, ok := constInt(args[1])
+			if !ok {
+				return "os.OpenFile with a non-constant flag inside WriteFile: cannot show that the file is truncated"
+			}
+			const oTRUNC, oAPPEND = 0x200, 0x400
+			if fl&oTRUNC == 0 {
+				return "os.OpenFile without O_TRUNC inside WriteFile: a longer existing file keeps its tail, so the written file is not the given data"
+			}
+			if fl&oAPPEND != 0 {
+				return "os.OpenFile with O_APPEND inside WriteFile"
+			}
+		}
+	}
+	return ""
 }
